@@ -2,6 +2,7 @@ import Driver.CondOps
 import Driver.EncOps
 import Driver.SStrOps
 import Driver.ModOps
+import Driver.RuleOps
 open Lean Driver
 
 def dispatch (op : String) (j : Json) : Except String Json :=
@@ -16,6 +17,8 @@ def dispatch (op : String) (j : Json) : Except String Json :=
   | "field.case" => fieldCase j
   | "field.batch" => fieldBatch j
   | "mod.apply" => modApply j
+  | "rule.sem" => ruleSem j
+  | "rule.batch" => ruleBatch j
   | "ping" => pure (Json.mkObj [("pong", true)])
   | _ => throw s!"unknown op {op}"
 
